@@ -321,9 +321,8 @@ class CSSStyleDeclaration(CSS2Properties, cssutils.util.Base2):
             # error, find next ; or } to omit upto next property
             # token itself may open a block, e.g. ( or [
             ignored = self._valuestr(
-                self._tokensupto2(
-                    tokenizer, starttoken=token, propertyvalueendonly=True
-                )
+                # up to the ; (a ! does not end what is skipped)
+                self._tokensupto2(tokenizer, starttoken=token, semicolon=True)
             )
             self._log.error(
                 'CSSStyleDeclaration: Unexpected token, ignoring upto %r.' % ignored,
